@@ -159,14 +159,16 @@ partial def closeOver {α : Type} [BEq α] (adj : α → α → Bool) (U : List 
     go (visited ++ p.1) p.1 p.2
   go start start (U.filter fun y => !start.contains y)
 
-/-- The vertices whose fan graph (faces at `v`, adjacent when they share an edge) is disconnected. -/
+/-- The vertices whose fan graph is disconnected: the faces at `v`, two of them adjacent when they
+share an edge at `v`, i.e. have a common vertex other than `v` (`adjAt`; stated without reference
+to the code's corner counting). -/
 def specSingular (ts : List Tri) : List Nat :=
   let fs := enum ts
   sortNats ((verts ts).filter fun v =>
     match facesAt v fs with
     | [] => false
     | t :: rest =>
-      let reach := closeOver fanAdj (t :: rest) [t]
+      let reach := closeOver (adjAt v) (t :: rest) [t]
       !(t :: rest).all reach.contains)
 
 /-- Components of `U` under `adj` by naive closure. -/
